@@ -16,6 +16,7 @@ def main(tier, args):
     quick = tier == "quick"
     # the firing configurations are defined in one place only (fire_cfgs() in harness.cpp)
     FIRE = subprocess.run([firex, "list-fire"], capture_output=True, text=True, check=True).stdout.split()
+    NFAR = int(subprocess.run([firex, "count-far"], capture_output=True, text=True, check=True).stdout)
     NSETS, NDEFECT = [int(x) for x in subprocess.run([sweep, "count-cron-sets"], capture_output=True, text=True, check=True).stdout.split()]
     depth, dl, budget = (6, 60, 85) if quick else (8, 1100, 1260)
     res = vf.Result(); log = open(vf.BUILD + "/C20/log.txt", "w")
@@ -44,7 +45,7 @@ def main(tier, args):
                    "reference = day scan over the sets, all (h, m, s) combinations inside a matching day) x dense boundary instants (+-2 s around up to 14 triggers of the day) over 7 windows and per-day "
                    "probes over 5+5 years; the `now` values are NOT monotonic (windows jump backwards), so a result remembered from an earlier call shows; oracle = independent day-scan reference "
                    "(own civil calendar), result strictly after now, armed delay >= wall distance. (2) firing: BFS over histories of {enable, disable, refresh, pass, skew monotonic +5 ms, wall +-1 h, "
-                   "toggle the explicit time zone by -180 min, initialize() again with the same configuration, cleanup() (then enable must fail until initialize), advance to half/T-5ms/T/T+1s, and on the three "
+                   "toggle the explicit time zone by -180 min, initialize() again with the same configuration, cleanup() (then enable must fail until initialize) [these three not on the %d far-target configurations], advance to half/T-5ms/T/T+1s, and on the three "
                    "calendar configurations: next matching day stops matching / tomorrow starts matching / special days cleared} depth<=%d on %d weekly/one-shot/cron/workday configurations "
                    "(targets 40/50/60/100/400 days ahead, a two-instants-per-day cron list, and 9 configurations whose CALLBACK itself calls enable() / refresh() / disable() / initialize()+enable() on its "
                    "alarm) under virtual wall + monotonic clocks; state = full alarm (incl. the last-fired record, zone, calendar subscriptions) + timer + loop-timer record + model; oracle = one callback "
@@ -53,7 +54,7 @@ def main(tier, args):
                    "and calendar in force. (3) calendar lane: BFS (depth 6, thorough 8) over enable/disable/refresh of three WorkdayAlarms sharing one WorkdayCalendar and updates of its special days / "
                    "week mask: every enabled alarm must be armed for the earliest matching instant under the calendar in force, its TimerEvent interval and loop timer record >= the wall distance, exactly "
                    "one loop timer record per enabled alarm and none for a disabled one"
-                   % ("{1,23296,43200,86398} and 12 more values on a stride-7 grid" if quick else "every 10-minute value, every hour +-1 and 16 boundary values at every second", "seconds-of-day {0,1,43200,86398,86399} x 40 masks (all with <=2 or >=6 days set + 3 patterns)" if quick else "16 boundary seconds-of-day x all 128 masks", NSETS, depth, len(FIRE)),
+                   % ("{1,23296,43200,86398} and 12 more values on a stride-7 grid" if quick else "every 10-minute value, every hour +-1 and 16 boundary values at every second", "seconds-of-day {0,1,43200,86398,86399} x 40 masks (all with <=2 or >=6 days set + 3 patterns)" if quick else "16 boundary seconds-of-day x all 128 masks", NSETS, NFAR, depth, len(FIRE)),
               assumptions=["cron: %d further list/step/AND expressions are in the case table but NOT evaluated by default because the bundled ccronexpr answers them wrongly on the unchanged tree "
                            "(multi-valued seconds kept after a minute/hour roll-over; same day NUMBER in a later month taken for 'day unchanged'; day 29..31 overflowing when the month is set): "
                            "C20_CRON_KNOWN_DEFECTS=1 evaluates them; day-of-month and day-of-week both restricted is read as a conjunction (what ccronexpr implements)" % NDEFECT,
